@@ -147,7 +147,9 @@ impl RK4 {
 
             // Adjust last step so we land exactly on xend
             let mut last = false;
+            let mut h = h; // shadows the fixed step for this iteration only
             if (x + 1.01 * h - xend) * h.signum() > 0.0 {
+                h = xend - x;
                 last = true;
             }
 
@@ -171,7 +173,7 @@ impl RK4 {
             yt.copy_from_slice(&y);
 
             // Update solution
-            x += h;
+            x = if last { xend } else { x + h };
             for i in 0..n {
                 y[i] += h * (B1 * k1[i] + B2 * k2[i] + B3 * k3[i] + B4 * k4[i]);
             }
